@@ -6,6 +6,7 @@ import sys
 
 sys.path.insert(0, os.path.dirname(os.path.dirname(os.path.abspath(__file__))))
 from verif_static.core import run_check, AnalysisError  # noqa
+from verif_static.norm import same, same_stmt  # noqa
 from verif_static import model as M, cfg as C  # noqa
 
 SOL = 'pysph/solver/solver.py'
@@ -114,7 +115,8 @@ def main(chk):
     bad = []
     for s in norm:
         stripped = tuple(e for e in s if e not in ('pre', 'post'))
-        order_ok = stripped == core
+        # the time and the iteration counter are advanced independently of each other: either order
+        order_ok = len(stripped) == len(core) and stripped[0] == core[0] and set(stripped[1:3]) == set(core[1:3]) and stripped[3:] == core[3:]
         # pre callbacks only before step, post only between step and the time update
         if 'pre' in s and s.index('pre') > s.index('step') if 'step' in s else False:
             order_ok = False
@@ -182,16 +184,16 @@ def main(chk):
         chk.violated('clamp', 'single-site', node=dn, file=SOL, func='_dump_output_if_needed', detail='%d assignments to self.dt' % len(clamp))
     else:
         c = clamp[0]
-        chk.decide(compact(c.value) in ('float(output_time-self.t)', 'output_time-self.t'), 'clamp', 'lands-on-output-time', node=c, file=SOL,
+        chk.decide(same(c.value, 'output_time-self.t'), 'clamp', 'lands-on-output-time', node=c, file=SOL,
                    func='_dump_output_if_needed', detail_bad='clamped step is %s (must be output_time - t: never past a requested time)' % U(c.value),
                    detail_ok=U(c.value))
         tb = [a for a in ast.walk(dn) if isinstance(a, ast.Assign) and U(a.targets[0]) == 'timestep_too_big']
-        ok = bool(tb) and compact(tb[0].value) in ('(tdiff>0.0)&(tdiff<dt)', '(tdiff>0)&(tdiff<dt)')
+        ok = bool(tb) and same(tb[0].value, '(tdiff>0)&(tdiff<dt)')
         chk.decide(ok, 'clamp', 'guard', node=tb[0] if tb else dn, file=SOL, func='_dump_output_if_needed',
                    detail_bad='clamp applies when %s (documented: 0 < tdiff < dt)' % (U(tb[0].value) if tb else None), detail_ok='(tdiff > 0) & (tdiff < dt)')
         td = [a for a in ast.walk(dn) if isinstance(a, ast.Assign) and U(a.targets[0]) == 'tdiff']
         dtv = [a for a in ast.walk(dn) if isinstance(a, ast.Assign) and U(a.targets[0]) == 'dt']
-        ok = bool(td) and compact(td[0].value) == 'output_at_times-self.t' and bool(dtv) and compact(dtv[0].value) == 'self.dt'
+        ok = bool(td) and same(td[0].value, 'output_at_times-self.t') and bool(dtv) and compact(dtv[0].value) == 'self.dt'
         chk.decide(ok, 'clamp', 'distances', node=dn, file=SOL, func='_dump_output_if_needed',
                    detail_bad='tdiff/dt are not (output_at_times - t) and the current step', detail_ok='tdiff = output_at_times - t; dt = self.dt')
         gi = M.enclosing(c, (ast.If,))
@@ -214,7 +216,7 @@ def main(chk):
     chk.decide('self.count%self.pfreq==0' in vals, 'dump-decision', 'every-pfreq-th-iteration', node=dn, file=SOL, func='_dump_output_if_needed',
                detail_bad='dump decisions are %s' % vals, detail_ok='count % pfreq == 0')
     at = [a for a in dd if compact(a.value) == 'True']
-    ok = bool(at) and compact(M.enclosing(at[0], (ast.If,)).test) == 'numpy.any(numpy.abs(tdiff)<self._epsilon)'
+    ok = bool(at) and same(M.enclosing(at[0], (ast.If,)).test, 'numpy.any(numpy.abs(tdiff)<self._epsilon)')
     chk.decide(ok, 'dump-decision', 'at-requested-times', node=at[0] if at else dn, file=SOL, func='_dump_output_if_needed',
                detail_bad='output at requested times is not triggered by |tdiff| < epsilon', detail_ok='any(|tdiff| < epsilon)')
     gd = C.build_cfg(dn)
@@ -223,7 +225,7 @@ def main(chk):
     chk.decide(ok, 'dump-decision', 'decision-followed-by-dump', node=dn, file=SOL, func='_dump_output_if_needed',
                detail_bad='dump_output() is not called exactly under `if dump`', detail_ok='if dump: dump_output()')
     early = [i for i in ast.walk(dn) if isinstance(i, ast.If) and any(isinstance(b, ast.Return) for b in i.body)]
-    chk.decide(len(early) == 1 and compact(early[0].test) == 'abs(self.t-self.tf)<self._epsilon', 'dump-decision', 'end-of-run-left-to-final-dump',
+    chk.decide(len(early) == 1 and same(early[0].test, 'abs(self.t-self.tf)<self._epsilon'), 'dump-decision', 'end-of-run-left-to-final-dump',
                node=dn, file=SOL, func='_dump_output_if_needed', detail_bad='early returns: %s' % [U(e.test) for e in early],
                detail_ok='only at t == tf (the final dump follows the loop)')
     # --- solver data: nominal step
@@ -245,7 +247,7 @@ def main(chk):
     damp = [n.id for n in gg.nodes if stmt_calls(n, 'self._damp_timestep')]
     rets = [n for n in gg.nodes if isinstance(n.ast, ast.Return)]
     endret = [n for n in rets if M.enclosing(n.ast, (ast.If,)) is not None and
-              compact(M.enclosing(n.ast, (ast.If,)).test) == 'abs(self.tf-self.t)<self._epsilon']
+              same(M.enclosing(n.ast, (ast.If,)).test, 'abs(self.tf-self.t)<self._epsilon')]
     others = [n for n in rets if n not in endret]
     ok = bool(comp) and bool(damp) and bool(others) and all(gg.must_pass(gg.entry, r.id, comp) and gg.must_pass(gg.entry, r.id, damp) for r in others) \
         and all(gg.dominates(comp[0], d) for d in damp)
@@ -260,8 +262,8 @@ def main(chk):
     clr = [a for a in ast.walk(gt) if isinstance(a, ast.Assign) and U(a.targets[0]) == 'self._prev_dt' and compact(a.value) == 'None']
     chk.decide(ok and bool(clr), 'next-step', 'nominal-step-restored-before-recomputing', node=gt, file=SOL, func='_get_timestep',
                detail_bad='the saved nominal step is not restored (and cleared) before the next step is computed', detail_ok='self.dt = self._prev_dt; _prev_dt = None; then compute')
-    land = [i for i in ast.walk(gt) if isinstance(i, ast.If) and compact(i.test) in ('self.t+dt>self.tf-self._epsilon', '(self.t+dt)>(self.tf-self._epsilon)')]
-    ok = bool(land) and len(land[0].body) == 1 and compact(land[0].body[0]) == 'dt=self.tf-self.t'
+    land = [i for i in ast.walk(gt) if isinstance(i, ast.If) and same(i.test, 'self.t+dt>self.tf-self._epsilon')]
+    ok = bool(land) and len(land[0].body) == 1 and same_stmt(land[0].body[0], 'dt=self.tf-self.t')
     chk.decide(ok, 'next-step', 'lands-on-tf', node=land[0] if land else gt, file=SOL, func='_get_timestep',
                detail_bad='the last step is not shortened to tf - t when t + dt would pass tf - epsilon', detail_ok='dt = tf - t')
     if land and others:
